@@ -73,6 +73,28 @@ def brew_cases(ctx, rng):
         cases.append({"files": [{"rows": rows}], "folds": 3, "workers": 1, "cap": None, "keyw": 2, "fmt": "pin", "thr": [1, 200],
                       "train_thr": [1, 100], "seed": 1000 + j, "est": "feat", "col": 1, "direction": "f2", "label_enc": ["1/-1", "1/0", "bool"][j % 3],
                       "override": False, "lower_better": False, "max_iter": 1})
+    # two collections of very different quality: the learned scores (probabilities, not calibrated) accept every target of the
+    # first and, on its own, none of the second (a decoy before every three targets: FDR never below 1/3) -- pooled with the
+    # first they would all pass.  Accepted targets are counted per collection, so the best feature (perfect in both) wins.
+    for j in range(2 if ctx.quick else 12):
+        ta, tb = 100 + 6 * j, 90 + 3 * j
+        rows_a, rows_b = [], []
+        for i in range(ta):
+            rows_a.append({"id": i, "spec": i + 1, "tgt": True, "f": [400 + i, 900 + i]})
+            rows_a.append({"id": ta + i, "spec": ta + i + 1, "tgt": False, "f": [i % 90, i % 50]})
+        v = 399
+        k = 0
+        for b in range(tb // 3):
+            rows_b.append({"id": 5000 + k, "spec": k + 1, "tgt": False, "f": [v, k % 50]})
+            v, k = v - 1, k + 1
+            for _ in range(3):
+                rows_b.append({"id": 5000 + k, "spec": k + 1, "tgt": True, "f": [v, 900 + k]})
+                v, k = v - 1, k + 1
+        rows_a = [rows_a[int(i)] for i in rng.permutation(len(rows_a))]
+        rows_b = [rows_b[int(i)] for i in rng.permutation(len(rows_b))]
+        cases.append({"files": [{"rows": rows_a}, {"rows": rows_b}], "folds": 3, "workers": 1, "cap": None, "keyw": 2, "fmt": "pin",
+                      "thr": [1, 4], "train_thr": [1, 4], "seed": 2000 + j, "est": "proba", "col": 1, "direction": "f2",
+                      "label_enc": ["1/-1", "1/0", "bool"][j % 3], "override": False, "lower_better": False, "max_iter": 1})
     return cases
 
 
